@@ -224,7 +224,7 @@ pub fn window_acceptable(win: u16, mss: Option<u16>, has_ts: bool, v4: bool) -> 
         return acc;
     }
     let w = win as u32;
-    let mut try_div = |d: u32, tag: &str, acc: &mut BTreeSet<String>| {
+    let try_div = |d: u32, tag: &str, acc: &mut BTreeSet<String>| {
         if d != 0 && w % d == 0 && w / d <= 255 {
             acc.insert(format!("{}*{}", tag, w / d));
         }
